@@ -76,13 +76,13 @@ pub fn spec(id: &str) -> Spec {
                    alone and combined with additions, injections and export edits",
         },
         "C11" => Spec {
-            alphabet: A_FUNC | A_TO_IMPORT | A_ADD | A_INJECT,
+            alphabet: A_FUNC | A_TO_IMPORT | A_ADD | A_INJECT | A_DELETE,
             max_len: 8,
             want_names: false,
             only_names: false,
             min_site_kinds: 2,
             anchors: vec!["convert_local_fn_to_import"],
-            rule: "convert_local_fn_to_import on any subset of local functions in any order, interleaved with add_import_func / builder additions / injections",
+            rule: "convert_local_fn_to_import on any subset of local functions in any order, interleaved with add_import_func / builder additions / injections / deletions of unreferenced functions (incl. parsed imports)",
         },
         "C12" => Spec {
             alphabet: A_FUNC | A_RICH | A_ADD | A_DELETE | A_TO_IMPORT | A_INJECT | A_EXPORTS,
